@@ -75,6 +75,10 @@ SCENARIOS = [
     ("insert", "hello world", ["i", "a\\\\\\\\", ["CR"], "b", ["esc"], "x"]),
     ("insert", "hello world", ["i", "\\\\\\\\", ["BS"], ["BS"], ["esc"], "x"]),
     ("search", "a\\b a\\b", ["/a\\\\", ["CR"], "x"]),
+    # keys run by :normal! have a reader of their own: a backslash at their end does not escape the key that follows the command
+    ("ex", "foo bar\nbaz\n", [":1normal! A\\\r", ["down"], "ix", ["esc"]]),
+    ("ex", "foo bar\nbaz\n", [":normal! A\\\r", ["esc"], "x", ["down"], "x"]),
+    ("ex", "foo bar\nbaz\n", [":g/a/normal! A\\\r", ["BS"], "x"]),
 ]
 
 
